@@ -274,7 +274,9 @@ def d4_release_notify(facts, rep):
         nt = calls_named(fn, ('notify_bounded_queue_monitor',))
         rep.ob('D4', 'K4', fn, 'a successful try_pop notifies the producers', bool(nt), 'no notification after try_pop')
         # return of a true value must have passed the notification: every path on the `present` true edge notifies
-        pres = edges_where(fn, lambda a, truth: truth and fn.n(fn.strip(a)).get('k') == 'var' and fn.n(fn.strip(a))['n'] == 'present')
+        from engine.rules import returned_vars, is_var
+        rv = returned_vars(fn)       # the success flag is the variable that the function returns
+        pres = edges_where(fn, lambda a, truth: truth and is_var(fn, a, rv))
         ok = bool(pres) and all(every_path_passes(fn, (fn.blocks[b]['succ'][si], -1),
                                                   lambda q, e: is_call_to(fn, e, shortnames=('notify_bounded_queue_monitor',)))[0]
                                 for b, si in pres)
